@@ -29,6 +29,8 @@ inductive FE where
   | del (o : FE) (p : String)                       -- delete o.p
   | delE (o : FE) (k : FE)                          -- delete o[k]
   | delV (x : String)                               -- delete x
+  | delX (e : FE)                                   -- delete (e), e not a reference (a conditional, (0, e))
+  | cond (t : FE) (a : FE) (b : FE)                 -- (t ? a : b)
   | defRO (o : FE) (p : String) (e : FE)            -- Object.defineProperty(o, "p", {value: e, writable: false,
                                                     --   enumerable: true, configurable: true})
   | call (f : FE) (args : FEs)                      -- f(args): no base object
